@@ -25,7 +25,7 @@ var suitesByProp = map[string][]func(*runner, *rng){
 	"C04": {suiteSsa},
 	"C17": {suiteSchedules},
 	"C19": {suiteDeterminism},
-	"C08": {suiteTotality},
+	"C08": {suiteTotality, suiteTeletextHostile},
 	"C06": {suiteTeletext, suiteTeletextModel},
 	"C07": {suiteConvert, suiteConvertModel, suiteConvertOps, suiteConvertCLI, suiteConvertRich},
 	"C20": {suiteConcurrency},
